@@ -69,8 +69,14 @@ class Site:
         self.term = term
         self.mult = 1
 
+    def label(self):
+        """what, normalised so that keys do not depend on the concrete container type"""
+        if self.kind == "K4" and ("ops::Index<" in self.what or "ops::IndexMut<" in self.what):
+            return "str Index::index" if "for str" in self.what else "Index::index"
+        return self.what
+
     def key(self):
-        k = "%s|%s|%s" % (self.fn["path"], self.kind, self.what)
+        k = "%s|%s|%s" % (self.fn["path"], self.kind, self.label())
         if self.detail:
             k += "|" + self.detail
         if self.mult > 1:
